@@ -1,5 +1,6 @@
 (* Lemmas for C06 (dataset routing).  Part 1: renamings, the isomorphism
    decision procedure, and the parsers that keep labels. *)
+From Coq Require Import PeanoNat.
 From RV Require Import Routing.Model.
 
 (* ------------------------------------------------------------------ *)
@@ -161,7 +162,8 @@ Lemma isob_sound A B : isob A B = true -> iso A B.
 Proof.
   unfold isob. destruct (qseteqb A B) eqn:E.
   - intros _. apply iso_refl_seteq. now apply qseteqb_spec.
-  - rewrite anyb_true. intros [a [Ha Ht]]. unfold try_assign in Ht.
+  - destruct (Nat.eqb (length (bnodes A)) (length (bnodes B))); [|discriminate].
+    rewrite anyb_true. intros [a [Ha Ht]]. unfold try_assign in Ht.
     destruct (nodupb N.eqb (map snd a)) eqn:En; [|discriminate].
     apply (nodupb_spec N.eqb N.eqb_spec) in En. apply qseteqb_spec in Ht.
     destruct (assigns_shape _ _ _ Ha) as [Ek Hv].
@@ -184,9 +186,37 @@ Proof.
   - rewrite <- (rn_odd r x Hb). now apply rn_quad_ids.
 Qed.
 
+Lemma rn_quad_ids_inv r q x :
+  In x (ids_of_quad (rn_quad r q)) -> exists y, In y (ids_of_quad q) /\ x = rn r y.
+Proof.
+  destruct q as [[[s p] o] c]. unfold ids_of_quad, rn_quad, rn_triple. simpl.
+  intros [<-|[<-|[<-|[<-|[]]]]].
+  - exists s. split; [now left|reflexivity].
+  - exists p. split; [right; now left|reflexivity].
+  - exists o. split; [right; right; now left|reflexivity].
+  - exists c. split; [right; right; right; now left|reflexivity].
+Qed.
+
+(* isomorphic datasets have the same number of blank nodes *)
+Lemma iso_bnode_count A B : iso A B -> length (bnodes A) = length (bnodes B).
+Proof.
+  intros [r [Hodd [Hinj Hs]]]. apply Nat.le_antisymm.
+  - rewrite <- (map_length r). apply NoDup_incl_length.
+    + apply NoDup_map_inj; [apply bnodes_NoDup|auto].
+    + intros y Hy. apply in_map_iff in Hy. destruct Hy as [x [<- Hx]]. eapply iso_image_bnode; eauto.
+  - rewrite <- (map_length r (bnodes A)). apply NoDup_incl_length; [apply bnodes_NoDup|].
+    intros x Hx. apply bnodes_In in Hx. destruct Hx as [Hb Hi]. apply ids_of_In in Hi.
+    destruct Hi as [q' [Hq' Hxq]]. apply Hs in Hq'. apply in_map_iff in Hq'. destruct Hq' as [q [<- Hq]].
+    apply rn_quad_ids_inv in Hxq. destruct Hxq as [y [Hy ->]]. unfold rn in *.
+    destruct (isb y) eqn:Ey.
+    + apply in_map. apply bnodes_In. split; [auto|]. apply ids_of_In. eauto.
+    + congruence.
+Qed.
+
 Lemma isob_complete A B : iso A B -> isob A B = true.
 Proof.
-  intros [r [Hodd [Hinj Hs]]]. unfold isob. destruct (qseteqb A B); [reflexivity|].
+  intros Hiso. pose proof (iso_bnode_count A B Hiso) as Hlen. destruct Hiso as [r [Hodd [Hinj Hs]]].
+  unfold isob. destruct (qseteqb A B); [reflexivity|]. rewrite Hlen, Nat.eqb_refl.
   apply anyb_true. exists (map (fun x => (x, r x)) (bnodes A)). split.
   - apply assigns_complete; [apply bnodes_NoDup|auto|]. intros x Hx. eapply iso_image_bnode; eauto.
   - unfold try_assign.
@@ -281,7 +311,7 @@ Qed.
 Lemma parse_plain_In d q : named_only d ->
   In q (parse_doc false d) <-> exists b, In b d /\ snd q = route (fst b) /\ In (fst q) (snd b).
 Proof.
-  intros Hn. unfold parse_doc. rewrite fold_blocks_plain; auto. simpl. tauto.
+  intros Hn. unfold parse_doc, parse_with. rewrite fold_blocks_plain; auto. simpl. tauto.
 Qed.
 
 Lemma blocks_of_named lab D cs : (forall c, lab c <> GAnon) -> named_only (blocks_of lab D cs).
